@@ -12,7 +12,10 @@ RULE = (
     'domain or body, predicate root) is replaced by a literal or by an operator/function application whose type is disjoint from what the position '
     'requires; (ii) a conjunct is added that uses an existing reference, whose inferred type is a single base type, at a disjoint type. The injection '
     'never touches syntax and never removes a use of a quantified variable, so TypeError is the only admissible outcome of parse_predicate / '
-    'parse_condition / parse_property (and parse_expresion for kind i). Non-trivial: injection below the root (depth >= 2) or kind (ii); distinct by text.'
+    'parse_condition / parse_property (and parse_expresion for kind i). A deterministic table places four kinds of reference at every typed position '
+    'of the signature table (both operands of every operator, the argument of every one-argument built-in, range bounds, set element, index, indexed '
+    'array, accessed message, quantifier domain and body) and uses it again at every disjoint type - after it, before it, under `or`, and behind a '
+    'neutral use that leaves the type open. Non-trivial: injection below the root (depth >= 2) or kind (ii); distinct by text.'
 )
 ASSUMPTIONS = ['required types per position come from hplverif/typesig.py; "definite" means a literal, an operator result, a call result or a reference whose inferred type set is one base type']
 
@@ -199,8 +202,33 @@ USES = {
 }
 
 
+REF_KIND_MASK = B | N | S | typesig.A | M  # what a field / index reference can be at all
+
+
+def required_masks(m):
+    """Independent of the library: for every reference spelled in the model (outside quantifier scopes), the intersection
+    of what its positions require according to the signature table (operand, argument, bound, element, index, domain)."""
+    req = {}
+    for path, mask, sub, bound, slot, depth in [((), B, m, (), 'predicate-root', 0)] + list(positions(m)):
+        if sub[0] in ('field', 'index') and not (set(bound) & mast.all_vars(sub)):
+            req[sub] = req.get(sub, REF_KIND_MASK) & mask
+    return req
+
+
 def inject_ii(ch, m, ast):
     """Kind (ii): conjoin a use of an existing, definitely typed reference at a disjoint type."""
+    if ch.int(0, 2) == 0:
+        # table-driven variant: the positions of the reference already require a type set (from the signature table,
+        # not from the library's inference); the added use requires a disjoint one
+        bound_all = {n[2] for n in mast.walk(m) if n[0] == 'q'}
+        cands = [(r, mk) for r, mk in required_masks(m).items() if mk and mk != REF_KIND_MASK and not (mast.all_vars(r) & bound_all)]
+        cands = [(r, mk) for r, mk in cands if any(not (u & mk) for u in USES)]
+        if cands:
+            ref, mk = ch.pick(sorted(cands, key=repr))
+            u = ch.pick([u for u in USES if not (u & mk)])
+            use = USES[u](ref)
+            new = binop('and', m, use) if ch.bool() else binop('and', use, m)
+            return new, {'kind': 'ii', 'reference': mast.render(ref), 'required-by-positions': typesig.mask_name(mk), 'used-as': typesig.mask_name(u), 'depth': 1, 'slot': 'same-reference-table'}
     root = ast.expression if astx.cname(ast) == 'HplPredicateExpression' else ast
     bound_names = {n.variable for n in astx.preorder(root) if astx.cname(n) == 'HplQuantifier'}
     # spellings of the references as they occur in the text (the same reference must be spelled the same way)
@@ -298,6 +326,109 @@ def sub_rejects(inp):
 SUBS = {'rejects': sub_rejects}
 
 
+###############################################################################
+# Systematic table: every typed position x every kind of reference x every disjoint later use
+###############################################################################
+
+ZERO = ('lit', 'int', '0')
+STR_A = ('lit', 'str', '"a"')
+
+
+def _as_pred(term, result_mask):
+    """Wrap a term of the given result type into a boolean condition."""
+    if result_mask == B:
+        return term
+    if result_mask == N:
+        return binop('>', term, ZERO)
+    if result_mask == S:
+        return binop('=', term, STR_A)
+    return binop('=', term, mast.own('w9'))
+
+
+def _lit_for(mask):
+    if mask & N:
+        return ONE
+    if mask & B:
+        return mast.TRUE
+    if mask & S:
+        return STR_A
+    if mask & SET:
+        return ('set', (ONE, TWO))
+    raise ValueError(mask)
+
+
+def table_contexts(r):
+    """[(slot name, required mask, condition model with r at that slot)] over every typed position of the signature table."""
+    out = []
+    for op, (p1, p2, res) in sorted(typesig.BINARY.items()):
+        out.append((f'left-operand:{op}', p1, _as_pred(binop(op, r, _lit_for(p2)), res)))
+        out.append((f'right-operand:{op}', p2, _as_pred(binop(op, _lit_for(p1), r), res)))
+    for op, (p1, res) in sorted(typesig.UNARY.items()):
+        out.append((f'unary-operand:{op}', p1, _as_pred(('un', op, r), res)))
+    for fn in sorted(typesig.FUNCTIONS):
+        mk = fn_arg_mask(fn)
+        if mk:
+            out.append((f'call-argument:{fn}', mk, _as_pred(('call', fn, r), typesig.fn_result(fn))))
+    out.append(('range-bound:low', N, binop('in', ONE, ('range', r, ('lit', 'int', '5'), False, False))))
+    out.append(('range-bound:high', N, binop('in', ONE, ('range', ZERO, r, False, True))))
+    out.append(('set-element', PRIM, binop('in', ONE, ('set', (r, TWO)))))
+    out.append(('index', N, binop('>', ('index', mast.own('v9'), r), ZERO)))
+    out.append(('indexed-array', typesig.A, binop('>', ('index', r, ZERO), ZERO)))
+    out.append(('accessed-message', M, binop('>', ('field', r, 'u9'), ZERO)))
+    out.append(('quantifier-domain', COMPOUND, ('q', 'forall', 'i', r, binop('>', ('var', 'i'), ZERO))))
+    out.append(('quantifier-body-operand', B, ('q', 'exists', 'i', mast.own('v9'), binop('or', r, binop('>', ('var', 'i'), ZERO)))))
+    return out
+
+
+TABLE_REFS = [
+    ('own-field', mast.own('f9')),
+    ('alias-field', ('field', ('var', 'A'), 'f9')),
+    ('indexed', ('index', mast.own('g9'), ZERO)),
+    ('nested-field', ('field', mast.own('m9'), 'f9')),
+]
+
+
+def table_cases():
+    """Deterministic: for every position whose signature requires mask K, a reference placed there and then used again at
+    every type disjoint from K - directly after it, before it, and behind a neutral use (`r = h9`) that leaves the type open."""
+    for rname, r in TABLE_REFS:
+        for slot, mk, ctx in table_contexts(r):
+            mk &= REF_KIND_MASK
+            base = mast.render(('pred', ctx))
+            for u in sorted(USES):
+                if u & mk:
+                    continue
+                use = USES[u](r)
+                neutral = binop('=', r, mast.own('h9'))
+                variants = [('after', binop('and', ctx, use)), ('before', binop('and', use, ctx)), ('or', binop('or', ctx, use))]
+                if mk & PRIM and u & PRIM:
+                    variants.append(('behind-neutral-use', binop('and', binop('and', ctx, neutral), use)))
+                    variants.append(('around-neutral-use', binop('and', binop('and', use, neutral), ctx)))
+                for vname, m in variants:
+                    info = {'kind': 'table', 'slot': f'{slot}', 'reference': rname, 'required': typesig.mask_name(mk), 'used-as': typesig.mask_name(u), 'variant': vname, 'depth': 2}
+                    yield {'kind': 'predicate', 'text': mast.render(('pred', m)), 'base_text': base, 'injection': info}
+
+
+def run_table(ctx):
+    bases = {}
+    with ctx.timed('table'):
+        for inp in table_cases():
+            b = inp['base_text']
+            if b not in bases:
+                bases[b] = lib.outcome('predicate', b)[0]
+                ctx.count('table-base:' + bases[b])
+            if bases[b] != 'ast':
+                ctx.count('table:skipped-base-rejected')
+                continue
+            try:
+                sub_rejects(inp)
+                r = 'rejected'
+            except Violation as v:
+                ctx.report(v)
+                r = 'violation'
+            ctx.case(inp['text'], True, f'table:{inp["injection"]["variant"]}:{r}', sample=inp['text'] if inp['injection']['variant'].endswith('neutral-use') else None)
+
+
 def wrap(kind, m, topic='t9'):
     if kind == 'predicate':
         return mast.render(('pred', m))
@@ -343,6 +474,9 @@ def gen_case(ch):
 
 
 def shard(ctx, shard_no, nshards, n):
+    if shard_no == 0:
+        run_table(ctx)
+
     def body(inp):
         if 'skip' in inp:
             ctx.count('skipped:' + inp['skip'])
